@@ -11,15 +11,24 @@ IMPL_JOBS = 8
 SHARD = 60
 RULE = ("a case = 2..16 thread programs (op lists over: top-level DebugBatchItem, top-level flush, run of a task tree "
         "whose leaves await DebugBatchItems of 4 shared kinds / call one shared @deduplicate()d function / carry logging "
-        "AsyncContexts or AsyncScopedValue overrides, profiler.flush(), scheduler probe, scheduler.reset(), fn.asyncio()), "
+        "AsyncContexts or AsyncScopedValue overrides and whose nodes may also make deduplicated calls they never await, "
+        "an un-awaited deduplicated call outside any task, profiler.flush(), profiler.reset(), scheduler probe, "
+        "scheduler.reset(), fn.asyncio()), "
+        "split into 1..4 thread GENERATIONS (a generation is started when every thread of the previous one has exited, so "
+        "thread idents get reused and dead threads' leftovers are still around); no thread resets the profiler unless its "
+        "program says so; "
         "COLLECT_PERF_STATS on in half of the cases; all threads use the same kinds, keys and functions; every program is "
-        "run alone on a fresh thread and `reps` times with all threads released together under sys.setswitchinterval(1e-6); "
+        "run alone on a fresh thread and `reps` times generation by generation, the threads of a generation released "
+        "together under sys.setswitchinterval(1e-6); "
         "85% structured stream (distinct batch sizes, so the flush order is forced), 15% rough stream (equal sizes, bare "
         "leaves as roots, empty nodes, deep nesting, repeated deduplicated calls); distinct = different (programs, option); "
         "non-trivial = at least 2 threads whose programs flush a batch")
 TRUSTED = ["CPython's GIL makes one dict get/set/pop with int-tuple/Thread keys atomic (the model's `step` is one such access)",
            "threading.local and contextvars.Context give every thread its own slot (modelled as a map thread id -> slot)",
-           "the interleavings of real OS threads are explored (tiny switch interval, repeated runs), not enumerated"]
+           "the interleavings of real OS threads are explored (tiny switch interval, repeated runs), not enumerated",
+           "that the OS gives a new thread the ident of a finished one cannot be forced, only provoked (start after join) and "
+           "counted (`ident_reuse` in the runner's output); a Thread object in a dict key is never equal to another thread's "
+           "(modelled: thread ids of the model are never reused)"]
 ASSUMPTIONS = ["thread programs share no user objects (an AsyncScopedValue instance is a plain process-wide cell; each "
                "program overrides its own instance); they share the asynq module state, the option object, the "
                "deduplicated function, batch kinds and keys",
@@ -28,7 +37,9 @@ ASSUMPTIONS = ["thread programs share no user objects (an AsyncScopedValue insta
                "compositions do not depend on the tie-break among equal-priority batches; when a tie is observed the "
                "order-sensitive parts of the digest are compared as multisets"]
 EXPLANATION = ("Theorems: the state-partitioning argument for every per-thread program and every interleaving of accesses to "
-               "the shared deduplicate dict. Real OS interleavings are explored by the correspondence run, not proved.")
+               "the shared deduplicate dict, including thread generations (threads that exited and left entries behind) and what "
+               "the thread component of the key has to be (injective over all threads the process ever has). Real OS "
+               "interleavings and ident reuse are explored by the correspondence run, not proved.")
 
 KINDS = 4
 KEYS = 6
@@ -45,7 +56,43 @@ def _ctx(rng, counter):
     return {"COv": [rng.randrange(1, 9)]}
 
 
-def gen_comp(rng, rough, counter):
+HOT = [(0, 0), (1, 3), (2, 2)]      # deduplication keys that many threads of a case ask for
+
+
+def _dkey(rng, hot=0.5):
+    if rng.random() < hot:
+        return rng.choice(HOT)
+    return (rng.randrange(KINDS), rng.randrange(KEYS))
+
+
+def _add_specs(rng, node, rough):
+    """Un-awaited deduplicated calls (Spec children) at random places of a tree."""
+    nodes = []
+
+    def walk(c):
+        if "Node" in c:
+            nodes.append(c)
+            for x in c["Node"][2]:
+                walk(x)
+    walk(node)
+    for _ in range(rng.choice([1, 1, 2, 3] if rough else [1, 1, 2])):
+        ch = rng.choice(nodes)["Node"][2]
+        dl = [x["DLeaf"] for nd in nodes for x in nd["Node"][2] if "DLeaf" in x]
+        if dl and rng.random() < 0.25:
+            k, x = rng.choice(dl)               # the same call is also awaited somewhere in this tree
+        else:
+            k, x = _dkey(rng)
+        ch.insert(rng.randrange(len(ch) + 1), {"Spec": [k, x]})
+
+
+def gen_comp(rng, rough, counter, spec=0.25):
+    c = _gen_comp(rng, rough, counter)
+    if "Node" in c and rng.random() < spec:
+        _add_specs(rng, c, rough)
+    return c
+
+
+def _gen_comp(rng, rough, counter):
     """A one-wave task tree.  Structured stream: leaf kinds get pairwise distinct counts."""
     n = [0]
 
@@ -55,7 +102,7 @@ def gen_comp(rng, rough, counter):
 
     if rough and rng.random() < 0.2:
         if rng.random() < 0.5:
-            return {"DLeaf": [rng.randrange(KINDS), rng.randrange(KEYS)]}
+            return {"DLeaf": list(_dkey(rng, 0.4))}
         return {"Leaf": [fresh(), _ctx(rng, counter), rng.randrange(KINDS), rng.randrange(KEYS)]}
     if rough:
         nleaves = rng.choice([0, 1, 2, 2, 3, 4, 6])
@@ -70,7 +117,10 @@ def gen_comp(rng, rough, counter):
     for k in kinds:
         if rng.random() < 0.3:
             key = rng.randrange(KEYS)
-            if not rough:
+            hot = [x for (k2, x) in HOT if k2 == k]
+            if hot and rng.random() < 0.4:
+                key = hot[0]
+            if not rough and (k, key) in used:
                 free = [x for x in range(KEYS) if (k, x) not in used]
                 key = rng.choice(free) if free else key
             used.add((k, key))
@@ -114,22 +164,31 @@ def gen_prog(rng, rough):
     ops = []
     for _ in range(rng.choice([1, 2, 3, 3, 4, 5, 6])):
         r = rng.random()
-        if r < 0.45:
+        if r < 0.42:
             ops.append({"ORun": [gen_comp(rng, rough, counter)]})
-        elif r < 0.62:
+        elif r < 0.57:
             ops.append({"OItem": [rng.randrange(KINDS), rng.randrange(KEYS)]})
-        elif r < 0.74:
+        elif r < 0.67:
             ops.append({"OFlush": [rng.randrange(KINDS)]})
-        elif r < 0.84:
+        elif r < 0.77:
             ops.append("OProf")
+        elif r < 0.85:
+            ops.append({"OSpec": list(_dkey(rng))})
         elif r < 0.91:
             ops.append("OSched")
-        elif r < 0.95:
+        elif r < 0.94:
             ops.append("OReset")
+        elif r < 0.97:
+            ops.append("OPReset")
         else:
             ops.append({"OAio": [rng.randrange(10)]})
     if not any(isinstance(o, dict) and "ORun" in o for o in ops):
         ops.insert(rng.randrange(len(ops) + 1), {"ORun": [gen_comp(rng, rough, counter)]})
+    r = rng.random()
+    if r < 0.12:
+        ops.insert(0, "OPReset")        # the habit of the library's own multithreaded test: reset first
+    elif r < 0.2:
+        ops.insert(0, "OProf")
     return ops
 
 
@@ -138,21 +197,42 @@ def comp_size(c):
     return 1 + sum(comp_size(x) for x in a[2]) if k == "Node" else 1
 
 
+def _op_steps(o):
+    if isinstance(o, dict) and "ORun" in o:
+        return 4 * comp_size(o["ORun"][0]) + 2
+    if isinstance(o, dict) and "OSpec" in o:
+        return 3
+    return 1
+
+
 def prog_steps(p):
-    return 2 + sum(4 * comp_size(o["ORun"][0]) + 2 if isinstance(o, dict) and "ORun" in o else 1 for o in p)
+    return 2 + sum(_op_steps(o) for o in p)
 
 
-def _finish(rng, threads, perf, reps, meta):
+def gen_gens(rng, n):
+    """Sizes of the thread generations (in thread order)."""
+    if n < 2 or rng.random() < 0.4:
+        return [n]
+    g = min(n, rng.choice([2, 2, 2, 3, 3, 4]))
+    cuts = sorted(rng.sample(range(1, n), g - 1))
+    return [b - a for a, b in zip([0] + cuts, cuts + [n])]
+
+
+def _finish(rng, threads, perf, reps, meta, gens=None):
     n = len(threads)
-    total = sum(prog_steps(p) for p in threads)
-    # a random interleaving of single accesses for the model (the theorem covers all of them)
-    sch = [rng.randrange(n) for _ in range(rng.randrange(0, total + 1))]
-    return _case(threads, perf, reps, sch, meta)
+    gens = list(gens) if gens else [n]
+    # per generation, a random interleaving of single accesses for the model (the theorems cover all of them)
+    schs, at = [], 0
+    for z in gens:
+        total = sum(prog_steps(p) for p in threads[at:at + z])
+        schs.append([at + rng.randrange(z) for _ in range(rng.randrange(0, total + 1))])
+        at += z
+    return _case(threads, perf, reps, gens, schs, meta)
 
 
-def _case(threads, perf, reps, sch, meta):
-    return {"threads": threads, "perf": perf, "reps": reps, "sch": sch, "meta": meta,
-            "tree": {"perf": perf, "threads": threads, "reps": reps, "model_schedule": sch}}
+def _case(threads, perf, reps, gens, schs, meta):
+    return {"threads": threads, "perf": perf, "reps": reps, "gens": gens, "schs": schs, "meta": meta,
+            "tree": {"perf": perf, "threads": threads, "reps": reps, "generations": gens, "model_schedules": schs}}
 
 
 def gen_case(rng, tier):
@@ -170,11 +250,11 @@ def gen_case(rng, tier):
         threads = [gen_prog(rng, rough) for _ in range(n)]
         same = False
     reps = 2 if tier == "quick" else 3
-    return _finish(rng, threads, rng.random() < 0.5, reps, {"rough": rough, "same_program": same})
+    return _finish(rng, threads, rng.random() < 0.5, reps, {"rough": rough, "same_program": same}, gen_gens(rng, n))
 
 
 def gen_cases(rng, tier):
-    n = 260 if tier == "quick" else 4000
+    n = 236 if tier == "quick" else 4000
     return [gen_case(rng, tier) for _ in range(n)]
 
 
@@ -188,7 +268,24 @@ def _corpus():
     p0 = [{"OItem": [0, 5]}, {"ORun": [big]}, "OProf", "OSched", {"OFlush": [0]}, "OReset", "OSched", {"OAio": [3]}]
     p1 = [{"ORun": [{"DLeaf": [1, 3]}]}, {"OItem": [1, 1]}, {"OFlush": [1]}, {"OFlush": [1]}, "OProf"]
     dd = [{"ORun": [{"Node": [0, "CNone", [{"DLeaf": [0, 0]}, {"DLeaf": [0, 0]}, {"DLeaf": [0, 1]}]]}]}, "OProf"]
+    # --- thread generations and un-awaited deduplicated calls
+    # a thread makes a deduplicated call it never awaits (inside a task / at top level) and exits; threads started
+    # afterwards make the same call and must compute their own
+    a0 = [{"ORun": [{"Node": [0, "CNone", [{"Spec": [1, 3]}, {"Leaf": [1, "CNone", 0, 2]}]]}]}, {"OSpec": [0, 0]}]
+    a1 = [{"ORun": [{"Node": [0, "CNone", [{"DLeaf": [1, 3]}, {"DLeaf": [0, 0]}]]}]}, "OProf"]
+    a2 = [{"OSpec": [1, 3]}, {"ORun": [{"DLeaf": [1, 3]}]}, {"OSpec": [0, 0]}, "OProf", {"ORun": [{"DLeaf": [0, 0]}]}, "OProf"]
+    # the same program in every generation: its own abandoned call, abandoned again by every later thread
+    sp = [{"ORun": [{"Node": [0, {"CLog": [1]}, [{"Leaf": [1, "CNone", 2, 1]}, {"Spec": [2, 2]}]]}]}, "OProf"]
+    # profiler: threads that record before their first profiler.reset()/flush(), next to one that resets first
+    q0 = [{"ORun": [{"Node": [0, "CNone", [{"Leaf": [1, "CNone", 0, 1]}, {"Leaf": [2, "CNone", 0, 2]}]]}]}, "OProf"]
+    q1 = ["OPReset"] + q0
     out = []
+    for perf in (False, True):
+        out.append(_finish(rng, [a0, a1], perf, 3, {"corpus": "abandoned-deduplicated-calls-then-a-new-thread"}, [1, 1]))
+        out.append(_finish(rng, [a0, a2, a1, a1], perf, 3, {"corpus": "abandoned-calls-three-generations"}, [1, 1, 2]))
+        out.append(_finish(rng, [sp] * 4, perf, 3, {"corpus": "same-abandoning-program-in-every-generation"}, [1, 2, 1]))
+    out.append(_finish(rng, [q0, q0, q1], True, 3, {"corpus": "profiler-flush-without-reset-first"}, [3]))
+    out.append(_finish(rng, [q0, q1, q0], True, 3, {"corpus": "profiler-flush-without-reset-first-generations"}, [1, 1, 1]))
     for perf in (False, True):
         out.append(_finish(rng, [p0, p1], perf, 3, {"corpus": "worked-example"}))
         out.append(_finish(rng, [dd] * 8, perf, 3, {"corpus": "same-deduplicated-calls-on-8-threads"}))
@@ -202,12 +299,13 @@ CORPUS = _corpus()
 
 
 def model_input(c):
-    return "%s %s %s" % ("true" if c["perf"] else "false", coqrun.coq_of(c["threads"]),
-                         coqrun.coq_of([{"n": i} for i in c["sch"]]))
+    return "%s %s %s %s" % ("true" if c["perf"] else "false", coqrun.coq_of(c["threads"]),
+                            coqrun.coq_of([{"n": z} for z in c["gens"]]),
+                            coqrun.coq_of([[{"n": i} for i in sch] for sch in c["schs"]]))
 
 
 def canon(c):
-    return json.dumps([c["threads"], c["perf"]], sort_keys=True)
+    return json.dumps([c["threads"], c["perf"], c["gens"]], sort_keys=True)
 
 
 def _flushes(p):
@@ -224,16 +322,71 @@ def _flushes(p):
     return False
 
 
+def _calls(c, out):
+    """(awaited, un-awaited) deduplication keys of a task tree, added to out = (set, set)."""
+    (k, a), = c.items()
+    if k == "Node":
+        for x in a[2]:
+            _calls(x, out)
+    elif k == "DLeaf":
+        out[0].add(tuple(a))
+    elif k == "Spec":
+        out[1].add(tuple(a))
+
+
+def _left_behind(p):
+    """Deduplication keys whose task is still registered (never awaited) when the program ends, and all keys it calls."""
+    pend, called = set(), set()
+    for o in p:
+        if isinstance(o, dict) and "OSpec" in o:
+            pend.add(tuple(o["OSpec"]))
+            called.add(tuple(o["OSpec"]))
+        elif isinstance(o, dict) and "ORun" in o:
+            aw, un = set(), set()
+            c = o["ORun"][0]
+            _calls({"DLeaf": c["Spec"]} if "Spec" in c else c, (aw, un))
+            pend |= un
+            pend -= aw
+            called |= aw | un
+    return pend, called
+
+
+def _abandoned_then_repeated(c):
+    left, at = set(), 0
+    for z in c["gens"]:
+        now = set()
+        for p in c["threads"][at:at + z]:
+            pend, called = _left_behind(p)
+            if called & left:
+                return True
+            now |= pend
+        left |= now
+        at += z
+    return False
+
+
 def nontrivial(c):
     return sum(1 for p in c["threads"] if _flushes(p)) >= 2
 
 
 def distribution(cases):
-    d = {"threads": {}, "perf": 0, "rough": 0, "same_program": 0, "ops_per_thread": {}, "tasks_per_run": {},
-         "op_kinds": {}, "dedup_calls": 0, "contexts": {"CNone": 0, "CLog": 0, "COv": 0}}
+    d = {"threads": {}, "generations": {}, "perf": 0, "rough": 0, "same_program": 0, "ops_per_thread": {}, "tasks_per_run": {},
+         "op_kinds": {}, "dedup_calls": 0, "unawaited_dedup_calls_in_tasks": 0, "contexts": {"CNone": 0, "CLog": 0, "COv": 0},
+         "cases_where_a_later_generation_repeats_a_call_abandoned_by_an_earlier_one": 0,
+         "threads_recording_perf_stats_before_their_first_profiler_reset_or_flush": 0,
+         "threads_starting_with_profiler_reset_or_flush": 0}
     for c in cases:
         n = len(c["threads"])
         d["threads"][str(n)] = d["threads"].get(str(n), 0) + 1
+        g = str(len(c["gens"]))
+        d["generations"][g] = d["generations"].get(g, 0) + 1
+        d["cases_where_a_later_generation_repeats_a_call_abandoned_by_an_earlier_one"] += 1 if _abandoned_then_repeated(c) else 0
+        for p in c["threads"]:
+            first = p[0] if p else None
+            if first in ("OProf", "OPReset"):
+                d["threads_starting_with_profiler_reset_or_flush"] += 1
+            elif c["perf"] and "OProf" in p:
+                d["threads_recording_perf_stats_before_their_first_profiler_reset_or_flush"] += 1
         d["perf"] += 1 if c["perf"] else 0
         d["rough"] += 1 if c.get("meta", {}).get("rough") else 0
         d["same_program"] += 1 if c.get("meta", {}).get("same_program") else 0
@@ -249,6 +402,7 @@ def distribution(cases):
                     d["tasks_per_run"][b] = d["tasks_per_run"].get(b, 0) + 1
                     txt = json.dumps(o)
                     d["dedup_calls"] += txt.count("DLeaf")
+                    d["unawaited_dedup_calls_in_tasks"] += txt.count("Spec")
                     for cn in ("CNone", "CLog", "COv"):
                         d["contexts"][cn] += txt.count(cn)
     return d
@@ -313,7 +467,7 @@ def compare(c, m, io):
 def _expected_result(c):
     (k, a), = c.items()
     if k == "Node":
-        return {"RList": [[_expected_result(x) for x in a[2]]]}
+        return {"RList": [[_expected_result(x) for x in a[2] if "Spec" not in x]]}
     if k == "Leaf":
         return {"RInt": [a[3]]}
     return {"RInt": [a[1]]}
@@ -331,15 +485,52 @@ def _check_trace(prog, perf, tr, tie, where, i, fs):
     flushed = set()
     top = []
     resets = 0
-    seg_item_ids = []
+    seg_item_ids = []     # profiler ids handed to this thread since its last profiler.flush()/reset()
+    seg_batches = [0]     # batches flushed by this thread's scheduler since then
+    created = []          # [task name, _id] of the tasks this thread made whose profiler entry it has not read yet
+    pend = {}             # deduplication key -> _id of this thread's registered, not yet computed task
+    broken = [False]      # an op raised: completeness clauses are off from there on
     ctxstate = {}
+
+    def end_segment(what):
+        allids = sorted(seg_item_ids)
+        if perf and allids != list(range(1, len(allids) + 1)):
+            site = "profiler:duplicate-id" if len(set(allids)) != len(allids) else "profiler:counter-gap"
+            hit("own-profiler", site, "ids handed out to this thread's tasks and items before %s: %s (expected 1..%d once each)" % (
+                what, allids, len(allids)))
+        del seg_item_ids[:]
+        seg_batches[0] = 0
+
     for o, evs in zip(ops, tr):
         name = _ek(o)
         for e in evs:
             k = _ek(e)
             a = e[k] if isinstance(e, dict) else []
             if k == "EExc":
+                broken[0] = True
                 hit("same-as-alone", "exception:%s:%s" % (name, a[0]["s"]), "%s raised %s" % (name, a[0]["s"]))
+            elif k in ("ENew", "EOld"):
+                tn, iid = a
+                if not perf and iid != 0:
+                    hit("own-profiler", "profiler:id-without-option", "task _id %d although COLLECT_PERF_STATS is off" % iid)
+                dk = tuple(tn["TD"]) if "TD" in tn else None
+                if k == "ENew":
+                    if perf:
+                        seg_item_ids.append(iid)
+                        created.append([tn, iid])
+                    if dk is not None:
+                        if dk in pend:
+                            hit("own-dedup-scope", "deduplicate:second-task-while-own-task-registered",
+                                "dleaf%s made a new task although this thread's task for the same call was registered and not running" % (dk,))
+                        pend[dk] = iid
+                else:
+                    # deduplication is per thread: an existing task can only be one this thread made and has not computed yet
+                    if dk not in pend:
+                        hit("own-dedup-scope", "deduplicate:existing-task-for-a-call-this-thread-has-not-pending",
+                            "dleaf%s returned an existing task; this thread has no un-computed task for that call" % (dk,))
+                    elif pend[dk] != iid:
+                        hit("own-dedup-scope", "deduplicate:existing-task-is-not-the-own-pending-one",
+                            "dleaf%s returned a task with _id %d, this thread's pending one has %d" % (dk, iid, pend[dk]))
             elif k == "EItem":
                 kind, key, idx, pos, iid = a
                 slot = items.setdefault((kind, idx), {})
@@ -364,6 +555,8 @@ def _check_trace(prog, perf, tr, tie, where, i, fs):
                         "batch (%d,%d) flushed with keys %s, this thread put %s into it" % (kind, idx, keys, want))
                 if (kind, idx) in flushed:
                     hit("own-batches", "flush:batch-flushed-twice", "batch (%d,%d) flushed twice" % (kind, idx))
+                if a[0] == "false":
+                    seg_batches[0] += 1
                 if any(k2 == kind and i2 > idx for (k2, i2) in flushed):
                     hit("own-batches", "flush:index-went-back", "batch index of kind %d went back to %d" % (kind, idx))
                 flushed.add((kind, idx))
@@ -384,14 +577,31 @@ def _check_trace(prog, perf, tr, tie, where, i, fs):
                     hit("results", "result:differs-from-program-text", "computation returned %s, its text says %s" % (
                         json.dumps(a[0])[:200], json.dumps(want)[:200]))
             elif k == "EProf":
-                ids = [x["PTask"][0] for x in a[0] if isinstance(x, dict)]
                 if not perf and a[0]:
                     hit("own-profiler", "profiler:entries-without-option", "profiler.flush() returned %d entries" % len(a[0]))
-                allids = sorted(ids + seg_item_ids)
-                if perf and allids != list(range(1, len(allids) + 1)):
-                    site = "profiler:duplicate-id" if len(set(allids)) != len(allids) else "profiler:counter-gap"
-                    hit("own-profiler", site, "ids handed out since the last profiler.flush(): %s (expected 1..%d once each)" % (allids, len(allids)))
-                seg_item_ids = []
+                if perf:
+                    # the buffer is this thread's: exactly one entry per task it made and computed since its last
+                    # flush()/reset() (or since the thread started), one per batch its scheduler flushed
+                    nb = 0
+                    for x in a[0]:
+                        if x == "PBatch":
+                            nb += 1
+                        elif x["PTask"] in created:
+                            created.remove(x["PTask"])
+                        else:
+                            hit("own-profiler", "profiler:entry-for-a-task-this-thread-did-not-make",
+                                "profiler.flush() returned an entry for %s with _id %d; this thread has made no such task "
+                                "(or has read its entry already)" % (json.dumps(x["PTask"][0]), x["PTask"][1]))
+                    if nb != seg_batches[0] and not broken[0]:
+                        hit("own-profiler", "profiler:batch-entries-differ-from-own-flushes",
+                            "profiler.flush() returned %d batch entries, this thread's scheduler flushed %d batches" % (nb, seg_batches[0]))
+                    left = [x for x in created if not ("TD" in x[0] and pend.get(tuple(x[0]["TD"])) == x[1])]
+                    if left and not broken[0]:
+                        hit("own-profiler", "profiler:own-entry-missing",
+                            "profiler.flush() returned no entry for %d computed task(s) of this thread, e.g. %s" % (
+                                len(left), json.dumps(left[0])))
+                    created[:] = [x for x in created if x not in left]
+                end_segment("this profiler.flush()")
             elif k == "ESched":
                 sid, nt, nb, active = a
                 if sid != 1 + resets:
@@ -409,7 +619,18 @@ def _check_trace(prog, perf, tr, tie, where, i, fs):
                     hit("own-batches", "final:top-level-item-state", "top-level items computed: %s, flushes seen say %s" % (a[0], want))
         if name == "OReset":
             resets += 1
+        if name == "OPReset":
+            # profiler.reset() throws the buffered entries away; tasks that are still pending report later
+            created[:] = [x for x in created if "TD" in x[0] and pend.get(tuple(x[0]["TD"])) == x[1]]
+            end_segment("this profiler.reset()")
+        if name == "OFinal":
+            end_segment("the end of the program")
         if name == "ORun":
+            aw = (set(), set())
+            c0 = o["ORun"][0]
+            _calls({"DLeaf": c0["Spec"]} if "Spec" in c0 else c0, aw)
+            for dk in aw[0]:
+                pend.pop(dk, None)       # awaited, so computed: deduplicate forgets it (tools.py:368-372)
             for cid, st in ctxstate.items():
                 if st == "true":
                     hit("context-events", "context:left-resumed", "context %d still resumed after the computation" % cid)
@@ -441,7 +662,7 @@ def monitors(c, io, build):
         _check_trace(progs[i], c["perf"], tr, tie, where, i, fs)
     # one broken thread-local makes dozens of clauses fire on the same case: keep the few most telling
     # signatures per case (what was observed of another thread first, digest differences last)
-    order = {"no-foreign-observation": 0, "own-active-task": 1, "own-scheduler": 1, "own-batches": 1, "own-profiler": 1,
+    order = {"no-foreign-observation": 0, "own-dedup-scope": 1, "own-active-task": 1, "own-scheduler": 1, "own-batches": 1, "own-profiler": 1,
              "asyncio-mode": 1, "results": 2, "context-events": 2, "same-as-alone": 3}
     seen = set()
     out = []
@@ -478,12 +699,25 @@ def shrink(c):
 def _shrink(c):
     th = c["threads"]
 
-    def mkc(threads):
-        return _case(threads, c["perf"], max(c.get("reps", 1), 3), [], {"shrunk": True})
+    gens = list(c.get("gens") or [len(th)])
+
+    def mkc(threads, g=None):
+        g = [z for z in (g or gens) if z > 0]
+        return _case(threads, c["perf"], max(c.get("reps", 1), 3), g, [[] for _ in g], {"shrunk": True})
 
     if len(th) > 2:
         for i in range(len(th)):
-            yield mkc(th[:i] + th[i + 1:])
+            g, at = list(gens), 0
+            for j, z in enumerate(g):
+                if at <= i < at + z:
+                    g[j] -= 1
+                    break
+                at += z
+            yield mkc(th[:i] + th[i + 1:], g)
+    if len(gens) > 1:
+        yield mkc(th, [len(th)])                      # all threads in one generation
+        for j in range(len(gens) - 1):
+            yield mkc(th, gens[:j] + [gens[j] + gens[j + 1]] + gens[j + 2:])
     for i, p in enumerate(th):
         for j in range(len(p)):
             if len(p) > 1:
